@@ -1562,7 +1562,11 @@ class connector( client ):
         mismatch cannot be determined by the collect layer.
 
         """
-        for (idx,req_ctx,dsc,op,req),col in zip(issued, self.collect( timeout=timeout )): # must be "lazy" zip!
+        collected		= self.collect( timeout=timeout )
+        for idx,req_ctx,dsc,op,req in issued: # issue each request (lazily), then collect its reply
+            # collect ceases on timeout/EOF; a request issued with no reply collected must not
+            # silently shorten the results (as a zip of the two would).
+            col			= next( collected, None )
             assert col, \
                 "Request: %5d (Context: %10r/%10r) No Reply;\nop: %s\nrequest: %s\ncollected: %r via %r" % (
                     idx, req_ctx, None, parser.enip_format( op ), parser.enip_format( req ), col, self )
